@@ -478,6 +478,30 @@ Section Tree.
     intros new E. apply app_new0 in E. subst. constructor.
   Qed.
 
+  (* a branch body that can `return` moves into a function of its own: the call that replaces it is to a
+     stored function, and the stored function holds the (closed, non-empty) body *)
+  Lemma isolate_closed bl a bl' a' S :
+    wf nm a -> isolate nm bl a = (bl', a') -> all_ok (OKa a S) bl ->
+    wf nm a' /\ ext nm a a' /\ all_ok (OKa a' S) bl' /\
+    exists n, fns a' = fns a ++ n /\ Forall (fun d => good (OKa a' S) (snd d)) n.
+  Proof.
+    intros W H Ab. destruct (isolate_spec nm ft0 env0 _ _ _ _ W H) as (W' & X' & _).
+    split; [exact W'|]. split; [exact X'|].
+    pose proof (ext_names _ _ X') as M.
+    unfold isolate in H. destruct (can_return bl) eqn:CR.
+    - destruct (get_count IF_ELSE a) as [k0 a1] eqn:G. inversion H; subst; clear H.
+      destruct (reserve_add nm _ _ _ _ _ bl W IF_in G (wf_get_count nm _ _ _ _ W G) (ext_refl nm a1))
+        as (_ & _ & Ef).
+      change (add_fns [(priv_fn nm IF_ELSE k0, bl)] a1) with (add_fn (priv_fn nm IF_ELSE k0, bl) a1) in *.
+      destruct (get_count_spec _ _ _ _ G) as (_ & _ & _ & Ef1). rewrite Ef1 in Ef.
+      split.
+      + apply call_ok. apply OKS_name. unfold fnames. rewrite Ef, map_app. apply in_or_app. right. left. reflexivity.
+      + exists [(priv_fn nm IF_ELSE k0, bl)]. split; [exact Ef|]. constructor; [|constructor]. cbn [snd]. split.
+        * eapply all_ok_mono; [exact M|exact Ab].
+        * intros ->. discriminate.
+    - inversion H; subst; clear H. split; [exact Ab|]. exists []. rewrite app_nil_r. split; [reflexivity|constructor].
+  Qed.
+
   Lemma C_BCons c body r : C_stmts body -> C_branches r -> C_branches (BCons c body r).
   Proof.
     intros Cb [Call Cr]. split; [split; assumption|].
@@ -490,31 +514,36 @@ Section Tree.
     destruct (is_bnil r && negb he) eqn:Last.
     - inversion H; subst; clear H. split; [constructor|]. split; [|exact Nb].
       intros c0 lines0 E0. inversion E0; subst. split; [apply OKS_src; exact Ic|exact Ab].
-    - destruct (get_count IF_ELSE a1) as [k a2] eqn:G.
-      set (w := mkW c bl k) in *.
+    - destruct (isolate nm bl a1) as [bl' a1'] eqn:Iso.
+      destruct (isolate_closed _ _ _ _ S W1 Iso Ab) as (W1' & X1' & Ab' & ni & Eni & Gni).
+      destruct (get_count IF_ELSE a1') as [k a2] eqn:G.
+      set (w := mkW c bl' k) in *.
       destruct (compile_branches nm he r (add_fn (wbr_fn nm w) a2)) as [[[ws' le'] a3]|] eqn:E3; [|discriminate].
       inversion H; subst; clear H.
-      destruct (reserve_add nm _ _ _ _ _ (w_body w ++ [set_flag nm 1]) W1 IF_in G
-                            (wf_get_count nm _ _ _ _ W1 G) (ext_refl nm a2)) as (W2 & X2 & Ef).
+      destruct (reserve_add nm _ _ _ _ _ (w_body w ++ [set_flag nm 1]) W1' IF_in G
+                            (wf_get_count nm _ _ _ _ W1' G) (ext_refl nm a2)) as (W2 & X2 & Ef).
       change (add_fns [(priv_fn nm IF_ELSE k, w_body w ++ [set_flag nm 1])] a2)
         with (add_fn (wbr_fn nm w) a2) in *.
       destruct (branches_ext _ _ _ _ _ _ W2 E3) as (W3 & X3 & _).
       destruct (Cr _ _ _ _ _ S W2 E3 Ir) as (Fw & Le & Nr).
       pose proof (ext_names _ _ X3) as M3. pose proof (ext_names _ _ X2) as M2.
-      assert (M1 : incl (fnames a1) (fnames a')) by (intros f Hf; apply M3, M2, Hf).
+      pose proof (ext_names _ _ X1') as M1'.
+      assert (M1i : incl (fnames a1') (fnames a')) by (intros f Hf; apply M3, M2, Hf).
+      assert (M1 : incl (fnames a1) (fnames a')) by (intros f Hf; apply M1i, M1', Hf).
       split.
       { constructor; [|exact Fw]. cbn [w_cond w_body w]. split; [apply OKS_src; exact Ic|].
-        eapply all_ok_mono; [exact M1|exact Ab]. }
+        eapply all_ok_mono; [exact M1i|exact Ab']. }
       split; [exact Le|].
       intros new En. destruct (get_count_spec _ _ _ _ G) as (_ & _ & _ & Ef2). rewrite Ef2 in Ef.
       destruct (ext_new _ _ X1) as [n1 En1]. destruct (ext_new _ _ X3) as [n3 En3].
-      assert (En13 : fns a' = fns a ++ (n1 ++ [wbr_fn nm w]) ++ n3).
-      { rewrite En3, Ef, En1. rewrite <- !app_assoc. reflexivity. }
+      assert (En13 : fns a' = fns a ++ ((n1 ++ ni) ++ [wbr_fn nm w]) ++ n3).
+      { rewrite En3, Ef, Eni, En1. rewrite <- !app_assoc. reflexivity. }
       rewrite En in En13. apply app_inv_head in En13. subst new.
-      apply Forall_app. split; [apply Forall_app; split|].
+      apply Forall_app. split; [apply Forall_app; split; [apply Forall_app; split|]|].
       + eapply Forall_good_mono; [exact M1|]. apply Nb. exact En1.
+      + eapply Forall_good_mono; [exact M1i|exact Gni].
       + constructor; [|constructor]. cbn [wbr_fn snd w_body w]. split.
-        * apply all_ok_app. split; [eapply all_ok_mono; [exact M1|exact Ab]|intros s []].
+        * apply all_ok_app. split; [eapply all_ok_mono; [exact M1i|exact Ab']|intros s []].
         * intros X. apply app_eq_nil in X. destruct X as [_ X]. discriminate.
       + apply Nr. exact En3.
   Qed.
